@@ -402,6 +402,14 @@ impl<VM: VMBinding> FreeListPageResource<VM> {
             debug_assert!(next_region_start < freelist::MAX_UNITS as usize);
             if pages_freed == next_region_start - region_start {
                 let start = sync.start;
+                if self.protect_memory_on_release.is_some() {
+                    // The chunks go back to the shared pool and may be handed to another space,
+                    // whose page resource knows nothing about our protection.
+                    self.munprotect_mapped_chunks(
+                        start + conversions::pages_to_bytes(region_start),
+                        pages_freed,
+                    );
+                }
                 unsafe {
                     self.free_contiguous_chunk(
                         start + conversions::pages_to_bytes(region_start),
